@@ -167,11 +167,27 @@ SKELETONS = [
 ]
 
 
+# the same for long integer literals (beyond 2**53 a detour through float loses digits, beyond 2**63 / 10**19 machine
+# words end, leading zeros and a sign make the text longer than the value)
+INT_PREFIXES = [
+    ("d15", "900719925474099", "3"),                     # 16..17 digits around 2**53
+    ("d18", "922337203685477580", "8"),                  # around 2**63
+    ("d19", "1844674407370955161", "6"),                 # around 2**64
+    ("neg", "-12345678901234567890", "1"),
+    ("zeros", "00000000000000000000", "7"),
+    ("d40", "1234567890123456789012345678901234567890", "1"),
+]
+INT_SKELETONS = [
+    (_s("item-int", L("item/"), W("id", "int"), L("/view"), flavour=0, ascii=True), 0, (), ("d15", "d19", "neg"), None, 3),
+    (_s("int-int", W("a", "int"), L("-"), W("b", "int"), flavour=1, ascii=True), 0, ("3",), ("d15",), None, 2),
+]
+
+
 def shapes(tier):
     return QUICK_SHAPES + (THOROUGH_SHAPES if tier == "thorough" else [])
 
 
-for _shape in QUICK_SHAPES + THOROUGH_SHAPES + [sk[0] for sk in SKELETONS]:
+for _shape in QUICK_SHAPES + THOROUGH_SHAPES + [sk[0] for sk in SKELETONS + INT_SKELETONS]:
     Route(_shape.text)                             # warm FilterFactory._filter_cache before any analysis
 
 
@@ -344,6 +360,16 @@ def queries(tier):
                          "digits, other wildcards %r" % (sh.text, sh.literals, where, prefix, n, list(rest)),
                          timeout=150 if not T else 600, expect_cover=["matched", "full-tail"], family="skeleton",
                          config={"rule": sh.text, "prefix": prefix, "tail_len": n, "other": list(rest)}))
+    for sh, where, rest, quick_tags, _all, deep_tail in INT_SKELETONS:
+        for tag, prefix, _tail in INT_PREFIXES:
+            if not T and tag not in quick_tags:
+                continue
+            n = deep_tail if T else 2
+            out.append(Q("skeleton/%s/%s" % (sh.tag, tag), make_skeleton(sh, where, prefix, rest, n),
+                         "rule %s; path = the rule's literals %r, int wildcard no. %d = %r + a symbolic tail of <= %d ASCII "
+                         "digits, other wildcards %r" % (sh.text, sh.literals, where, prefix, n, list(rest)),
+                         timeout=300 if not T else 900, expect_cover=["matched", "full-tail"], family="skeleton",
+                         config={"rule": sh.text, "prefix": prefix, "tail_len": n, "other": list(rest)}))
     return out
 
 
@@ -352,7 +378,8 @@ def selftest(tier):
     stubs_c19.differential(prefix + "%0*d" % (n, v) for _tag, prefix, _tail in FLOAT_PREFIXES
                            for n in (1, 2, 3) for v in range(10 ** n))
     cases = [(q.qid, dict(t=tail), "ok") for q in queries(tier) if q.family == "skeleton"
-             for tag, _prefix, tail in FLOAT_PREFIXES if q.qid.endswith("/" + tag)]
+             for tag, _prefix, tail in FLOAT_PREFIXES + INT_PREFIXES if q.qid.endswith("/" + tag)
+             and (q.qid.split("/")[1] in ("item-int", "int-int")) == (tag in [t for t, _p, _t in INT_PREFIXES])]
     for sh in shapes(tier):
         if sh.wildcards:
             texts = list(sh.example) + ["", "", ""]
